@@ -244,7 +244,8 @@ fn check(ctl: &TransferControl, m: &Model, before: &Model, op: &Op, ri: &Res, rm
     if let (Op::Send { c, .. }, Res::Sent(true)) = (op, ri) {
         let inflight_before = before.sent - before.acked;
         let inflight_after = sent - acked;
-        if !(inflight_before == 0 || inflight_after as u128 <= before.window as u128) {
+        // (only when no earlier pushed-but-unsent chunk is being accounted together with this one)
+        if before.next_off == before.sent && !(inflight_before == 0 || inflight_after as u128 <= before.window as u128) {
             return Some((format!("{p}:over-grant"), format!("credit for {c} granted with {inflight_before} in flight and window {}", before.window)));
         }
     }
@@ -364,6 +365,10 @@ fn alphabet(c13: bool) -> Vec<Op> {
             Op::Resume { peer: 5, file: 0, off: 1 },
             Op::Resume { peer: 6, file: 1, off: 0 },
             Op::SentStale { back: 1 },
+            // a chunk pushed to the replay ring whose send then failed (documented loop: push before send,
+            // record_sent only after a successful send): the ring's trailing edge runs ahead of `sent`
+            Op::Push { d: 2, ovh: 0, last: false },
+            Op::Resume { peer: 7, file: 0, off: 3 },
         ]
     }
 }
@@ -395,7 +400,7 @@ fn random_op(r: &mut Rng, m_file_hint: u32, c13: bool) -> Op {
             11 => Op::Resume { peer: 1 + r.below(1000), file, off: if r.coin() { r.boundary_u64() } else { small(r) } },
             12 => Op::SentStale { back: r.below(5) },
             13 => if r.chance(1, 5) { Op::Cancel { reason: r.below(3) as u8 } } else { Op::Credit { c: small(r) } },
-            14 => Op::Reconnect,
+            14 => if r.coin() { Op::Reconnect } else { Op::Push { d: 1 + r.below(9), ovh: r.below(3), last: false } },
             _ => Op::Send { c: 1 + r.below(8), ovh: r.below(3) },
         }
     }
@@ -418,7 +423,7 @@ pub fn run(args: &Args, c13: bool) -> Report {
     let miri = args.stage.starts_with("miri");
     let alpha = alphabet(c13);
     // (a) exhaustive
-    let max_len: usize = if miri { 2 } else if c13 { if args.thorough() { 8 } else { 7 } } else if args.thorough() { 8 } else { 6 };
+    let max_len: usize = if miri { 2 } else if c13 { if args.thorough() { 8 } else { 7 } } else if args.thorough() { 7 } else { 6 };
     let configs: Vec<(u64, u64)> = if c13 { vec![(1 << 20, 0), (1 << 20, 4), (1 << 20, 7)] } else { vec![(4, 1 << 20), (0, 1 << 20), (3, 2)] };
     let configs = if miri { configs[..1].to_vec() } else { configs };
     quiet_panics(true);
